@@ -187,7 +187,7 @@ def explorer_cases(rnd, n_chains, n_multi, id0):
 
 # ---------------------------------------------------------------------------------------------- replay + validation
 def record(run, prefix, universe, cases, multi, shards, keysets=None):
-    inp = {"universe": universe, "keys": KEYS, "keysets": keysets or KEYSETS, "cases": cases, "multi": multi, "anyDraws": 8, "chunk": 400}
+    inp = {"universe": universe, "keys": KEYS, "keysets": keysets or KEYSETS, "cases": cases, "multi": multi, "anyDraws": 8, "chunk": 100}
     ipath = os.path.join(run.work, prefix + "-cases.json")
     json.dump(inp, open(ipath, "w"))
     out = json.loads(run.drv("requirements-replay", ["-in", ipath, "-out", os.path.join(run.work, "traces"),
@@ -218,7 +218,7 @@ def pipeline(run, note):
     weak_configs(run)
     t2 = time.time()
     cases = cases_from_chains(chains, run.seed)
-    shards = 8 if run.tier == "quick" else 16
+    shards = 8 if run.tier == "quick" else 24
     run.build_drv()
     t3 = time.time()
     files = record(run, "tlc", universe, cases, [], shards)
@@ -227,7 +227,7 @@ def pipeline(run, note):
     xuni, xcases, xmulti = explorer_cases(rnd, nch, nmu, id0=len(cases))
     files += record(run, "exp", xuni, xcases, xmulti, shards)
     t4 = time.time()
-    par = 8 if run.tier == "quick" else 12
+    par = 8
     validate(run, files, par)
     t5 = time.time()
     run.notes.append("stage wall times: closed model+generation %.0fs, spec mutations %.0fs, build %.0fs, replay on real code %.0fs, "
